@@ -185,6 +185,8 @@ class Program:
         self.attr_domains = self._attr_domains()
         _T.LIST_ATTRS.clear()
         _T.LIST_ATTRS.update(self._list_attrs())
+        _T.NOTNONE_KEYS.clear()
+        _T.NOTNONE_ITEMS.clear()
         _T.NOTNONE_CALLS.clear()
         _T.NOTNONE_CALLS.update(fi.short for fi in self.functions.values() if _returns_not_none(fi.node))
 
